@@ -26,6 +26,7 @@ func init() {
 			"(stub-body, proxy-body) the generated stub decodes every declared parameter, in declaration order, with the emitter of the parameter's own type, passes all of them to the implementation and encodes the result with the emitter of the return type; the generated proxy passes one argument per declared parameter in declaration order and decodes the response with the return type; " +
 			"(signals-properties) signal and property helpers encode the event with the same tuple/type the subscriber side decodes. " +
 			"The emitted operations are read off the generator's syntax tree (jen call chains, string fragments naming basic.ReadX / basic.WriteX, calls of Type.Marshal / Type.Unmarshal, Go loops over Members / Params) in source order. " +
+			"On the generated code checked into the repository (stated-types, stated-shapes, stated-events): every signature string such code states is parsed (letter table read from the constructors of meta/signature) and compared with what the code does with the bytes — the static Go types handed to the reflection codec at bus.NewParams / bus.NewResponse, the wire shape each stub method decodes and encodes for the action its meta-object advertises, what signal / property emitters, typed subscribers, property accessors and validator hooks encode or decode. " +
 			"Not decided: that the generated text compiles for every IDL (identifier hygiene, imports, name collisions), that the fragments are syntactically well formed, and equality of values end to end; the generator is not run.",
 		Assumptions: []string{"within one emitter function, source order of the jen calls is emission order (true of jen call chains and of slices appended to in order)", "the jen library renders what it is given"},
 		Run:         runC05,
